@@ -199,7 +199,15 @@ XSLTEngineImpl::reset()
 
 XSLTEngineImpl::~XSLTEngineImpl()
 {
-    reset();
+    // reset() re-creates some state, so it can fail, but a destructor
+    // must not throw.
+    try
+    {
+        reset();
+    }
+    catch(...)
+    {
+    }
 }
 
 
